@@ -14,10 +14,20 @@ package main
 // clock moving between a call's readings, is executed on real goroutines.
 // "begin" runs a call through its Has (OnResponse) / its Get (OnRequest);
 // "step" lets it continue to its next clock reading or its end.
+//
+// Look-ups at lock-region granularity (suite cconc, model ModelLook.v): a
+// look-up of the cache is a map read under the read lock followed by a clock
+// reading and the expiry test with no lock held. "lreq" (OnRequest) and
+// "lresp" (OnResponse) start a call and stop it INSIDE that clock reading,
+// i.e. after its map read; "leval" lets it go on: the reading it gets is the
+// clock at that moment (parkPoint.late), so the harness can move the clock,
+// fire the entry's sleeper, store again ... between the two halves of 2-3
+// look-ups of one key.
 
 import (
 	"fmt"
 	"sort"
+	"time"
 
 	"lunar/engine/actions"
 	lunarMessages "lunar/engine/messages"
@@ -35,9 +45,22 @@ type pcall struct {
 	reads    []int64 // values of the clock readings taken so far
 	finished bool
 	unexpect bool
+	blocked  bool // neither reached a clock reading nor returned within callBound (treated as over)
+	isReq    bool // an OnRequest call (cconc: lreq)
 	// OnRequest result (read after done)
 	act actions.ReqLunarAction
+	err error
 }
+
+// atLook: the call is stopped between the map read and the clock reading of a look-up.
+func (pc *pcall) atLook() bool { return !pc.finished && pc.p != nil && pc.p.late }
+
+// callBound: how long the harness waits for a call to reach its next clock
+// reading or its end. Never reached at HEAD (a call never blocks: nothing
+// holds a lock while stopped); an implementation that holds a lock across a
+// clock reading makes other calls block - the harness then records the call
+// as blocked (ill-formed step for the model) and goes on.
+var callBound = 2 * time.Second
 
 func (f *fclock) disarm() {
 	f.mu.Lock()
@@ -47,6 +70,8 @@ func (f *fclock) disarm() {
 
 // wait blocks until the call is stopped in its next clock reading or has ended.
 func (w *world) waitCall(pc *pcall) {
+	timer := time.NewTimer(callBound)
+	defer timer.Stop()
 	select {
 	case <-pc.p.parked:
 		pc.reads = append(pc.reads, w.clk.now)
@@ -54,13 +79,42 @@ func (w *world) waitCall(pc *pcall) {
 		w.clk.disarm()
 		pc.finished = true
 		pc.p = nil
+	case <-timer.C:
+		w.clk.disarm()
+		pc.finished, pc.blocked, pc.unexpect = true, true, true
+		pc.p = nil
+		callBound = 50 * time.Millisecond
+		syncStats["sync.calls_blocked"]++
 	}
 }
 
-func (w *world) startCall(fn func(pc *pcall)) *pcall {
+// bounded runs fn (a read of the state of the code under test that takes its
+// lock) on a goroutine of the harness and gives up after callBound: with
+// calls stopped inside the code under test the harness must not depend on
+// that lock being free. The goroutine stays until the end of the case.
+func (w *world) bounded(fn func()) bool {
+	done := make(chan struct{})
+	release := w.helper()
+	go func() { fn(); close(done); <-release }()
+	timer := time.NewTimer(callBound)
+	defer timer.Stop()
+	select {
+	case <-done:
+		return true
+	case <-timer.C:
+		callBound = 50 * time.Millisecond
+		syncStats["sync.snapshots_blocked"]++
+		return false
+	}
+}
+
+func (w *world) startCall(fn func(pc *pcall)) *pcall { return w.startCallAt(fn, false) }
+
+// startCallAt: late = the first clock reading of the call is a late one (see parkPoint.late).
+func (w *world) startCallAt(fn func(pc *pcall), late bool) *pcall {
 	pc := &pcall{done: make(chan struct{})}
 	release := w.helper()
-	pc.p = w.clk.arm()
+	pc.p = w.clk.armWith(late)
 	go func() { fn(pc); close(pc.done); <-release }()
 	w.waitCall(pc)
 	return pc
@@ -68,6 +122,9 @@ func (w *world) startCall(fn func(pc *pcall)) *pcall {
 
 func (w *world) stepCall(pc *pcall) {
 	old := pc.p
+	if old.late && len(pc.reads) > 0 {
+		pc.reads[len(pc.reads)-1] = w.clk.now // the reading it is about to get
+	}
 	pc.p = w.clk.arm()
 	close(old.resume)
 	w.waitCall(pc)
@@ -76,7 +133,7 @@ func (w *world) stepCall(pc *pcall) {
 // ================================================================ cconc
 
 type XOp struct {
-	Kind    string            `json:"op"` // adv|req|begin|step|fire
+	Kind    string            `json:"op"` // adv|req|begin|step|fire|lreq|lresp|leval
 	Conf    int               `json:"conf"`
 	Method  string            `json:"method,omitempty"`
 	URL     string            `json:"url,omitempty"`
@@ -84,22 +141,27 @@ type XOp struct {
 	Vid     int               `json:"vid,omitempty"`
 	Status  int               `json:"status,omitempty"`
 	BodyLen int               `json:"body_len,omitempty"`
-	Call    int               `json:"call,omitempty"` // step/fire: index of the begin op
+	Call    int               `json:"call,omitempty"` // step/fire/leval: index of the begin / lreq / lresp op
 	D       int64             `json:"advance_ns,omitempty"`
+	Sweep   int               `json:"sweep,omitempty"` // req: part of sweep #n (consecutive requests at one instant, one per key used so far)
+	Fill    bool              `json:"fill,omitempty"`  // begin: a response of the fill phase
 
 	// observed
 	At        int64   `json:"at_ns"`
 	Early     bool    `json:"early,omitempty"`
 	RVid      int     `json:"r_vid,omitempty"`
+	RBytes    int64   `json:"replayed_content_bytes,omitempty"` // bytes of the body and headers of the early response
 	Unexpect  bool    `json:"unexpected,omitempty"`
-	Reads     []int64 `json:"clock_readings_ns,omitempty"` // begin/step: readings the call has taken so far
-	Finished  bool    `json:"finished,omitempty"`          // begin/step: the call has returned
+	Reads     []int64 `json:"clock_readings_ns,omitempty"` // begin/step/l*: readings the call has taken so far
+	Finished  bool    `json:"finished,omitempty"`          // begin/step/l*: the call has returned
+	Blocked   bool    `json:"blocked,omitempty"`           // the call neither read the clock nor returned (given up on)
 	Stored    bool    `json:"stored,omitempty"`
 	Slp       int     `json:"sleepers_started,omitempty"`
 	Bad       bool    `json:"bad,omitempty"`
 	Held      int     `json:"held_entries"`
 	HeldBytes int64   `json:"held_content_bytes"`
 	InFlight  int     `json:"calls_in_flight"`
+	Looks     int     `json:"lookups_in_flight,omitempty"` // calls stopped between map read and clock reading
 }
 
 type CConcCase struct {
@@ -132,14 +194,61 @@ func newCConcRun(cfs []CachingConf, t0 int64) *cconcRun {
 
 func (r *cconcRun) now() int64 { return r.w.clk.now }
 
+// inFlight: OnResponse calls between their Has and their end.
 func (r *cconcRun) inFlight() int {
 	n := 0
 	for _, pc := range r.calls {
-		if !pc.finished {
+		if !pc.finished && !pc.isReq && !pc.atLook() {
 			n++
 		}
 	}
 	return n
+}
+
+// looks: calls stopped between the map read and the clock reading of a look-up.
+func (r *cconcRun) looks() int {
+	n := 0
+	for _, pc := range r.calls {
+		if pc.atLook() {
+			n++
+		}
+	}
+	return n
+}
+
+// reqResult records what an OnRequest call answered.
+func (r *cconcRun) reqResult(o *XOp, act actions.ReqLunarAction, err error) {
+	switch a := act.(type) {
+	case *actions.NoOpAction:
+	case *actions.EarlyResponseAction:
+		o.Early = true
+		o.RVid = -1
+		o.RBytes = int64(len(a.Body) + hdrLen(a.Headers))
+		for _, p := range r.resps {
+			if a.Status == p.Status && a.Body == respBody(p.Vid, p.BodyLen) && sameHeaders(a.Headers, respHeaders(p.Vid)) {
+				o.RVid = p.Vid
+			}
+		}
+	default:
+		o.Unexpect = true
+	}
+	if err != nil {
+		o.Unexpect = true
+	}
+}
+
+func (r *cconcRun) request(o *XOp) lunarMessages.OnRequest {
+	return lunarMessages.OnRequest{
+		ID: "rq", SequenceID: "rq", Method: o.Method, Scheme: "https", URL: o.URL,
+		Headers: map[string]string{},
+	}
+}
+
+func (r *cconcRun) response(o *XOp) lunarMessages.OnResponse {
+	return lunarMessages.OnResponse{
+		ID: respID(o.Vid), SequenceID: respID(o.Vid), Method: o.Method, URL: o.URL,
+		Status: o.Status, Headers: respHeaders(o.Vid), Body: respBody(o.Vid, o.BodyLen),
+	}
 }
 
 func (r *cconcRun) afterFinish(o *XOp, begin int) {
@@ -149,7 +258,8 @@ func (r *cconcRun) afterFinish(o *XOp, begin int) {
 		vid = b[begin].Vid
 	}
 	if cache := r.plugin.VerifC12Cache(); cache != nil {
-		_, vals, _, _ := cache.VerifC12Snapshot()
+		var vals []remedies.CachedResponse
+		r.w.bounded(func() { _, vals, _, _ = cache.VerifC12Snapshot() })
 		for _, v := range vals {
 			if v.ID == respID(vid) {
 				o.Stored = true
@@ -169,58 +279,87 @@ func (r *cconcRun) do(o XOp) {
 		r.w.clk.set(r.now() + o.D)
 		o.At = r.now()
 	case "req":
-		act, err := r.plugin.OnRequest(lunarMessages.OnRequest{
-			ID: "rq", SequenceID: "rq", Method: o.Method, Scheme: "https", URL: o.URL,
-			Headers: map[string]string{},
-		}, &r.confs[o.Conf], copyMap(o.Params))
-		switch a := act.(type) {
-		case *actions.NoOpAction:
-		case *actions.EarlyResponseAction:
-			o.Early = true
-			o.RVid = -1
-			for _, p := range r.resps {
-				if a.Status == p.Status && a.Body == respBody(p.Vid, p.BodyLen) && sameHeaders(a.Headers, respHeaders(p.Vid)) {
-					o.RVid = p.Vid
-				}
-			}
-		default:
-			o.Unexpect = true
+		var act actions.ReqLunarAction
+		var err error
+		msg, conf, params := r.request(&o), &r.confs[o.Conf], copyMap(o.Params)
+		if r.w.bounded(func() { act, err = r.plugin.OnRequest(msg, conf, params) }) {
+			r.reqResult(&o, act, err)
+		} else { // blocked on a lock that a stopped call holds
+			o.Blocked, o.Unexpect = true, true
 		}
-		if err != nil {
-			o.Unexpect = true
-		}
-	case "begin":
+	case "begin", "lresp":
 		conf := &r.confs[o.Conf]
-		msg := lunarMessages.OnResponse{
-			ID: respID(o.Vid), SequenceID: respID(o.Vid), Method: o.Method, URL: o.URL,
-			Status: o.Status, Headers: respHeaders(o.Vid), Body: respBody(o.Vid, o.BodyLen),
-		}
+		msg := r.response(&o)
 		params := copyMap(o.Params)
-		pc := r.w.startCall(func(pc *pcall) {
+		// lresp: stopped inside the clock reading of Has (after its map read) and left there
+		pc := r.w.startCallAt(func(pc *pcall) {
 			act, err := r.plugin.OnResponse(msg, conf, params)
 			if _, ok := act.(*actions.NoOpAction); !ok || err != nil {
 				pc.unexpect = true
 			}
-		})
-		if !pc.finished { // stopped in the clock reading of Has: the map read is done; go on to the next reading
+		}, o.Kind == "lresp")
+		if o.Kind == "begin" && !pc.finished { // stopped in the clock reading of Has: the map read is done; go on to the next reading
 			r.w.stepCall(pc)
 		}
 		r.calls[idx] = pc
 		r.resps = append(r.resps, o)
-		o.Reads, o.Finished = append([]int64{}, pc.reads...), pc.finished
+		o.Reads, o.Finished, o.Blocked = append([]int64{}, pc.reads...), pc.finished, pc.blocked
 		if pc.finished {
 			o.Unexpect = pc.unexpect
 			r.afterFinish(&o, idx)
 		}
-	case "step":
+	case "lreq":
+		conf := &r.confs[o.Conf]
+		msg := r.request(&o)
+		params := copyMap(o.Params)
+		pc := r.w.startCallAt(func(pc *pcall) {
+			pc.act, pc.err = r.plugin.OnRequest(msg, conf, params)
+		}, true)
+		pc.isReq = true
+		r.calls[idx] = pc
+		o.Reads, o.Finished, o.Blocked = append([]int64{}, pc.reads...), pc.finished, pc.blocked
+		if pc.finished {
+			if !pc.blocked {
+				r.reqResult(&o, pc.act, pc.err)
+			}
+			o.Unexpect = o.Unexpect || pc.unexpect
+			r.w.quiesce()
+		}
+	case "leval":
 		pc, ok := r.calls[o.Call]
-		if !ok || pc.finished {
+		if !ok || !pc.atLook() {
 			o.Bad = true
 			break
 		}
 		r.w.stepCall(pc)
-		o.Reads, o.Finished = append([]int64{}, pc.reads...), pc.finished
-		if pc.finished {
+		o.Reads, o.Finished, o.Blocked = append([]int64{}, pc.reads...), pc.finished, pc.blocked
+		switch {
+		case pc.isReq && pc.finished:
+			if !pc.blocked {
+				r.reqResult(&o, pc.act, pc.err)
+			}
+			o.Unexpect = o.Unexpect || pc.unexpect
+			r.w.quiesce()
+		case pc.finished:
+			o.Unexpect = pc.unexpect
+			r.afterFinish(&o, o.Call)
+		}
+	case "step":
+		pc, ok := r.calls[o.Call]
+		if !ok || pc.finished || pc.atLook() {
+			o.Bad = true
+			break
+		}
+		r.w.stepCall(pc)
+		o.Reads, o.Finished, o.Blocked = append([]int64{}, pc.reads...), pc.finished, pc.blocked
+		switch {
+		case pc.isReq && pc.finished: // an OnRequest call that read the clock more than once
+			if !pc.blocked {
+				r.reqResult(&o, pc.act, pc.err)
+			}
+			o.Unexpect = true
+			r.w.quiesce()
+		case pc.finished:
 			o.Unexpect = pc.unexpect
 			r.afterFinish(&o, o.Call)
 		}
@@ -235,12 +374,18 @@ func (r *cconcRun) do(o XOp) {
 	default:
 		panic("unknown op " + o.Kind)
 	}
-	keys, vals, _, _ := r.plugin.VerifC12Cache().VerifC12Snapshot()
-	o.Held = len(keys)
-	for i, key := range keys {
-		o.HeldBytes += int64(len(key.Method) + len(key.URL) + len(vals[i].ID) + len(vals[i].Body) + hdrLen(vals[i].Headers))
+	var keys []remedies.CachingPluginKey
+	var vals []remedies.CachedResponse
+	if !r.w.bounded(func() { keys, vals, _, _ = r.plugin.VerifC12Cache().VerifC12Snapshot() }) {
+		o.Held = -1 // the state could not be read: a stopped call holds the cache lock
+	} else {
+		o.Held = len(keys)
+		for i, key := range keys {
+			o.HeldBytes += int64(len(key.Method) + len(key.URL) + len(vals[i].ID) + len(vals[i].Body) + hdrLen(vals[i].Headers))
+		}
 	}
 	o.InFlight = r.inFlight()
+	o.Looks = r.looks()
 	r.k.Ops = append(r.k.Ops, o)
 }
 
@@ -254,11 +399,20 @@ func (r *cconcRun) finish() {
 	}
 	sort.Ints(ids)
 	for _, id := range ids {
-		for !r.calls[id].finished {
+		r.complete(id)
+	}
+	r.w.finish()
+}
+
+// complete lets call id run to its end (recorded as leval / step ops).
+func (r *cconcRun) complete(id int) {
+	for pc := r.calls[id]; !pc.finished; {
+		if pc.atLook() {
+			r.do(XOp{Kind: "leval", Call: id})
+		} else {
 			r.do(XOp{Kind: "step", Call: id})
 		}
 	}
-	r.w.finish()
 }
 
 func (r *cconcRun) pendingDue() (due []int) {
@@ -313,6 +467,10 @@ func confCoq(cf *CachingConf) string {
 // stops in the 2nd clock reading (CreationTime) unless the call returned
 // (record too large / already present); the next stop is the 3rd reading
 // (inside Set, after WithMaxCacheSize); then the call ends (locked section).
+// Split look-ups (ModelLook.v): "lreq" = LReqRead (the call returned at once,
+// without a clock reading: nothing found; else it is stopped in its 1st
+// reading), "lresp" = LHasRead (stopped in its 1st reading unless the record
+// is too large), "leval" = LReqEval / LHasEval with the reading it got.
 func cconcCoq(k *CConcCase) string {
 	items := []string{}
 	prevReads := map[int]int{}
@@ -320,6 +478,16 @@ func cconcCoq(k *CConcCase) string {
 	str := func(x string) string { return in.get("s", c.Bytes(x)) }
 	par := func(m map[string]string) string { return in.get("p", paramsCoq(m)) }
 	cfc := func(i int) string { return in.get("cf", confCoq(&k.Confs[i])) }
+	cresp := func(o *XOp) string {
+		return fmt.Sprintf("(Build_cresp %d %d%%N %d%%N %d%%N)", o.Vid, len(respID(o.Vid)), o.BodyLen, hdrLen(respHeaders(o.Vid)))
+	}
+	answer := func(o *XOp) string {
+		if o.Early {
+			return "CEarly " + c.Z(int64(o.RVid))
+		}
+		return "CNoOp"
+	}
+	isReq := func(i int) bool { return i >= 0 && i < len(k.Ops) && k.Ops[i].Kind == "lreq" }
 	for i, o := range k.Ops {
 		var op string
 		out := "CDone"
@@ -327,42 +495,69 @@ func cconcCoq(k *CConcCase) string {
 		case "adv":
 			continue
 		case "req":
-			op = fmt.Sprintf("FReq %s %s %s %s %s", cfc(o.Conf), str(o.Method), str(o.URL), par(o.Params), c.Z(o.At))
-			out = "CNoOp"
-			if o.Early {
-				out = "CEarly " + c.Z(int64(o.RVid))
-			}
+			op = fmt.Sprintf("LOld (FReq %s %s %s %s %s)", cfc(o.Conf), str(o.Method), str(o.URL), par(o.Params), c.Z(o.At))
+			out = answer(&o)
 		case "begin":
-			op = fmt.Sprintf("FHas %d %s %s %s %s (Build_cresp %d %d%%N %d%%N %d%%N) %s",
-				i, cfc(o.Conf), str(o.Method), str(o.URL), par(o.Params),
-				o.Vid, len(respID(o.Vid)), o.BodyLen, hdrLen(respHeaders(o.Vid)), c.Z(o.At))
+			op = fmt.Sprintf("LOld (FHas %d %s %s %s %s %s %s)",
+				i, cfc(o.Conf), str(o.Method), str(o.URL), par(o.Params), cresp(&o), c.Z(o.At))
 			prevReads[i] = len(o.Reads)
 			if !o.Finished && len(o.Reads) != 2 {
 				out = "CBad"
 			}
+		case "lreq":
+			op = fmt.Sprintf("LReqRead %d %s %s %s %s", i, cfc(o.Conf), str(o.Method), str(o.URL), par(o.Params))
+			switch {
+			case o.Finished:
+				out = answer(&o) // the model: nothing found, NoOp without a clock reading
+			case len(o.Reads) != 1:
+				out = "CBad"
+			}
+		case "lresp":
+			op = fmt.Sprintf("LHasRead %d %s %s %s %s %s", i, cfc(o.Conf), str(o.Method), str(o.URL), par(o.Params), cresp(&o))
+			prevReads[i] = len(o.Reads)
+			if !o.Finished && len(o.Reads) != 1 {
+				out = "CBad"
+			}
+		case "leval":
+			switch {
+			case o.Bad || len(o.Reads) == 0:
+				op, out = fmt.Sprintf("LReqEval %d 0", o.Call), "CBad"
+			case isReq(o.Call):
+				op = fmt.Sprintf("LReqEval %d %s", o.Call, c.Z(o.Reads[0]))
+				out = answer(&o)
+				if !o.Finished {
+					out = "CBad"
+				}
+			default:
+				op = fmt.Sprintf("LHasEval %d %s", o.Call, c.Z(o.Reads[0]))
+				prevReads[o.Call] = len(o.Reads)
+				if !(o.Finished && len(o.Reads) == 1) && !(!o.Finished && len(o.Reads) == 2) {
+					out = "CBad"
+				}
+			}
 		case "step":
-			if o.Bad {
-				op, out = fmt.Sprintf("FLim %d", o.Call), "CBad"
+			if o.Bad || isReq(o.Call) {
+				op, out = fmt.Sprintf("LOld (FLim %d)", o.Call), "CBad"
 				break
 			}
 			prev := prevReads[o.Call]
 			prevReads[o.Call] = len(o.Reads)
 			switch {
 			case prev == 2 && !o.Finished && len(o.Reads) == 3:
-				op = fmt.Sprintf("FLim %d", o.Call)
+				op = fmt.Sprintf("LOld (FLim %d)", o.Call)
 			case prev == 3 && o.Finished:
-				op = fmt.Sprintf("FSet %d %s", o.Call, c.Z(o.Reads[2]))
+				op = fmt.Sprintf("LOld (FSet %d %s)", o.Call, c.Z(o.Reads[2]))
 			default: // not the pieces the model knows
-				op, out = fmt.Sprintf("FLim %d", o.Call), "CBad"
+				op, out = fmt.Sprintf("LOld (FLim %d)", o.Call), "CBad"
 			}
 		case "fire":
 			b := k.Ops[o.Call]
-			op = fmt.Sprintf("FFire %d %s %s %s %s", o.Call, cfc(b.Conf), str(b.Method), str(b.URL), par(b.Params))
+			op = fmt.Sprintf("LOld (FFire %d %s %s %s %s)", o.Call, cfc(b.Conf), str(b.Method), str(b.URL), par(b.Params))
 		}
-		if o.Unexpect || (o.Bad && o.Kind != "step") {
+		if o.Unexpect || o.Blocked || (o.Bad && o.Kind != "step" && o.Kind != "leval") {
 			out = "CBad"
 		}
-		items = append(items, fmt.Sprintf("(%s, (%s, %d, %d))", op, out, o.Held, o.InFlight))
+		items = append(items, fmt.Sprintf("(%s, (%s, %d, %d, %d))", op, out, o.Held, o.InFlight, o.Looks))
 	}
 	return in.wrap(c.List(items))
 }
@@ -392,8 +587,14 @@ func cleanSelected(cf *CachingConf, params map[string]string) bool {
 // was handed to an OnResponse call earlier for the same method, URL and
 // selected path-parameter values, and only until its time-to-live (the one of
 // the configuration it was stored under) has passed, counted at the latest
-// from the return of that call; the content held never exceeds the largest
-// configured size.
+// from the return of that call (a request stopped inside its look-up counts
+// from its begin); the content held never exceeds the largest configured
+// size - checked on the snapshot after every step and, from the OUTSIDE, on
+// every sweep: the requests of a sweep are made one after the other at one
+// instant, one per key used so far; the responses they replay are what the
+// cache can replay at that instant, and their content (method, URL, body,
+// headers as replayed - less than any size measure that counts them) must
+// not add up to more than the largest configured maximum.
 func cconcMonitor(k *CConcCase) []c.Hit {
 	var hits []c.Hit
 	add := func(sig, dem, obs string) {
@@ -405,25 +606,33 @@ func cconcMonitor(k *CConcCase) []c.Hit {
 			maxBytes = cf.MaxBytes
 		}
 	}
+	isResp := func(p *XOp) bool { return p.Kind == "begin" || p.Kind == "lresp" }
 	doneAt := map[int]int64{} // begin op -> clock when the call returned
 	sizeReported := false
 	for i, o := range k.Ops {
-		if (o.Kind == "begin" || o.Kind == "step") && o.Finished {
-			b := i
-			if o.Kind == "step" {
-				b = o.Call
+		if o.Finished && !o.Blocked { // (a call the harness gave up on ends at an unknown instant: no claim)
+			switch o.Kind {
+			case "begin", "lresp":
+				doneAt[i] = o.At
+			case "step", "leval":
+				doneAt[o.Call] = o.At
 			}
-			doneAt[b] = o.At
 		}
-		if o.Kind == "req" && o.Early {
+		// the request this op answers: itself, or the lreq op it completes
+		rq, reqAt := &k.Ops[i], o.At
+		answered := o.Kind == "req" || o.Kind == "lreq"
+		if (o.Kind == "leval" || o.Kind == "step") && !o.Bad && o.Call >= 0 && o.Call < i && k.Ops[o.Call].Kind == "lreq" {
+			rq, reqAt, answered = &k.Ops[o.Call], k.Ops[o.Call].At, true
+		}
+		if answered && o.Early {
 			src := -1
 			for j := 0; j < i; j++ {
-				if p := &k.Ops[j]; p.Kind == "begin" && p.Vid == o.RVid {
+				if p := &k.Ops[j]; isResp(p) && p.Vid == o.RVid {
 					src = j
 				}
 			}
-			rcf := &k.Confs[o.Conf]
-			want := fmt.Sprintf("op %d: replay for %s %s %s only of a response stored for the same key", i, o.Method, o.URL, selectedValuation(rcf, o.Params))
+			rcf := &k.Confs[rq.Conf]
+			want := fmt.Sprintf("op %d: replay for %s %s %s only of a response stored for the same key", i, rq.Method, rq.URL, selectedValuation(rcf, rq.Params))
 			if src < 0 {
 				add("phantom-hit:cconc", want, "the replayed response was never handed to OnResponse")
 				continue
@@ -431,17 +640,17 @@ func cconcMonitor(k *CConcCase) []c.Hit {
 			s := &k.Ops[src]
 			scf := &k.Confs[s.Conf]
 			switch {
-			case s.Method != o.Method || s.URL != o.URL ||
-				selectedValuation(scf, s.Params) != selectedValuation(rcf, o.Params):
+			case s.Method != rq.Method || s.URL != rq.URL ||
+				selectedValuation(scf, s.Params) != selectedValuation(rcf, rq.Params):
 				sig := "wrong-key-hit:cconc"
-				if s.Method == o.Method && s.URL == o.URL && (!cleanSelected(scf, s.Params) || !cleanSelected(rcf, o.Params)) {
+				if s.Method == rq.Method && s.URL == rq.URL && (!cleanSelected(scf, s.Params) || !cleanSelected(rcf, rq.Params)) {
 					sig = "wrong-key-hit:caching-join-ambiguous"
 				}
 				add(sig, want, fmt.Sprintf("replayed the response given for %s %s %s", s.Method, s.URL, selectedValuation(scf, s.Params)))
 			default:
-				if d, ok := doneAt[src]; ok && o.At > d+scf.ttl() {
+				if d, ok := doneAt[src]; ok && reqAt > d+scf.ttl() {
 					add("expired-hit:cconc", fmt.Sprintf("op %d: no replay after %d (its OnResponse returned at %d, ttl %d)", i, d+scf.ttl(), d, scf.ttl()),
-						fmt.Sprintf("replayed at %d", o.At))
+						fmt.Sprintf("request made at %d answered from memory", reqAt))
 				}
 			}
 		}
@@ -451,34 +660,89 @@ func cconcMonitor(k *CConcCase) []c.Hit {
 				fmt.Sprintf("after op %d the cache holds %d bytes of keys, bodies and headers", i, o.HeldBytes))
 		}
 	}
+	// sweeps: what can be replayed at one instant
+	for i := 0; i < len(k.Ops); {
+		o := &k.Ops[i]
+		if o.Kind != "req" || o.Sweep == 0 {
+			i++
+			continue
+		}
+		j, total, seen, what := i, int64(0), map[int]bool{}, ""
+		for ; j < len(k.Ops) && k.Ops[j].Kind == "req" && k.Ops[j].Sweep == o.Sweep && k.Ops[j].At == o.At; j++ {
+			q := &k.Ops[j]
+			if !q.Early || (q.RVid >= 0 && seen[q.RVid]) {
+				continue // nothing replayed / the same stored response again (two requests, one entry)
+			}
+			seen[q.RVid] = true
+			n := int64(len(q.Method)+len(q.URL)) + q.RBytes
+			total += n
+			what += fmt.Sprintf(" %s %s %s: %d;", q.Method, q.URL, selectedValuation(&k.Confs[q.Conf], q.Params), n)
+		}
+		if total > maxBytes {
+			add("size-bound:replayable-entries",
+				fmt.Sprintf("sweep %d (ops %d-%d, at %d): the responses the cache can replay add up to at most %d bytes (largest configured max_cache_size)", o.Sweep, i, j-1, o.At, maxBytes),
+				fmt.Sprintf("%d bytes of method, URL, body and headers are replayed:%s", total, what))
+		}
+		i = j
+	}
 	return hits
 }
 
 func cconcRecord(o *c.Out, k *CConcCase) {
 	hit, miss, stored, notStored, overl, boundary := 0, 0, 0, 0, 0, 0
 	exp := map[int64]bool{}
+	looks2, lookEvals, lookPastExpiry, sweeps, sweepMax, fills := 0, 0, 0, map[int]bool{}, int64(0), 0
+	expOf := map[string]int64{} // key -> expiry of the entry stored last
+	keyOf := func(b *XOp) string {
+		return b.Method + " " + b.URL + " " + selectedValuation(&k.Confs[b.Conf], b.Params)
+	}
+	sweepTotal := map[int]int64{}
 	for _, op := range k.Ops {
+		if op.Looks >= 2 {
+			looks2++
+		}
 		switch op.Kind {
-		case "begin", "step":
+		case "begin", "step", "lresp", "leval":
 			if op.InFlight >= 2 {
 				overl++
 			}
-			if op.Finished {
+			if op.Kind == "begin" && op.Fill {
+				fills++
+			}
+			isReqCall := (op.Kind == "leval" || op.Kind == "step") && !op.Bad && k.Ops[op.Call].Kind == "lreq"
+			if op.Kind == "leval" && !op.Bad {
+				lookEvals++
+				if e, ok := expOf[keyOf(&k.Ops[op.Call])]; ok && op.At > e {
+					lookPastExpiry++
+				}
+			}
+			if isReqCall && op.Finished {
+				if op.Early {
+					hit++
+				} else {
+					miss++
+				}
+			}
+			if op.Finished && !isReqCall {
 				if op.Stored {
 					stored++
 					b := op
-					if op.Kind == "step" {
+					if op.Kind == "step" || op.Kind == "leval" {
 						b = k.Ops[op.Call]
 					}
 					if len(op.Reads) >= 3 {
 						e := op.Reads[2] + k.Confs[b.Conf].ttl()
 						exp[e-1], exp[e], exp[e+1] = true, true, true
+						expOf[keyOf(&b)] = e
 					}
 				} else {
 					notStored++
 				}
 			}
-		case "req":
+		case "req", "lreq":
+			if op.Kind == "lreq" && !op.Finished {
+				break
+			}
 			if op.Early {
 				hit++
 			} else {
@@ -487,8 +751,36 @@ func cconcRecord(o *c.Out, k *CConcCase) {
 			if exp[op.At] {
 				boundary++
 			}
+			if op.Sweep > 0 {
+				sweeps[op.Sweep] = true
+				if op.Early {
+					sweepTotal[op.Sweep] += int64(len(op.Method)+len(op.URL)) + op.RBytes
+				}
+			}
 		}
 	}
+	for _, t := range sweepTotal {
+		if t > sweepMax {
+			sweepMax = t
+		}
+	}
+	if len(sweeps) > 0 {
+		var maxBytes int64
+		for _, cf := range k.Confs {
+			if cf.MaxBytes > maxBytes {
+				maxBytes = cf.MaxBytes
+			}
+		}
+		o.Count("cconc.cases_with_fill_and_sweep")
+		o.CountN("cconc.sweeps", len(sweeps))
+		o.CountN("cconc.fill_responses", fills)
+		if sweepMax*10 >= maxBytes*7 {
+			o.Count("cconc.cases_with_sweep_replaying>=70%_of_max")
+		}
+	}
+	o.CountN("cconc.steps_with_2+_lookups_stopped_after_map_read", looks2)
+	o.CountN("cconc.lookups_resumed_after_a_stop", lookEvals)
+	o.CountN("cconc.lookups_resumed_past_the_expiry_of_their_key", lookPastExpiry)
 	o.Count(fmt.Sprintf("cconc.configs=%d", len(k.Confs)))
 	o.CountN("cconc.hits", hit)
 	o.CountN("cconc.misses", miss)
@@ -496,7 +788,7 @@ func cconcRecord(o *c.Out, k *CConcCase) {
 	o.CountN("cconc.calls_not_stored", notStored)
 	o.CountN("cconc.steps_with_2+_calls_in_flight", overl)
 	o.CountN("cconc.probes_at_expiry±1ns", boundary)
-	nontrivial := hit > 0 && miss > 0 && overl > 0
+	nontrivial := hit > 0 && miss > 0 && (overl > 0 || looks2 > 0)
 	idx := o.Case("cconc", cconcCoq(k), k, nontrivial)
 	o.MonitorChecked(1)
 	for _, h := range cconcMonitor(k) {
@@ -509,7 +801,7 @@ func replayCConc(o *c.Out, k *CConcCase) {
 	r := newCConcRun(k.Confs, k.T0)
 	for _, op := range k.Ops {
 		r.do(XOp{Kind: op.Kind, Conf: op.Conf, Method: op.Method, URL: op.URL, Params: op.Params, Vid: op.Vid,
-			Status: op.Status, BodyLen: op.BodyLen, Call: op.Call, D: op.D})
+			Status: op.Status, BodyLen: op.BodyLen, Call: op.Call, D: op.D, Sweep: op.Sweep, Fill: op.Fill})
 	}
 	r.finish()
 	cconcRecord(o, r.k)
